@@ -219,6 +219,47 @@ def main(rep, ws, tier):
         rep.ob('toFloat.cpp halfToFloat cells', 'R02.gen', UNDECIDED, str(e)[:300], 'src/Imath/toFloat.cpp')
     rep.floor('probe compilations', len(graphs), 12)
     rep.assumptions += ['x86-64 clang 14 as the compiler of all configurations']
+    # R02.gen (count): the generator's main() calls halfToFloat once for each of the 65,536 patterns, in order from 0
+    try:
+        gsrc2 = '#define main imath_gen_main\n#include "%s/src/Imath/toFloat.cpp"\n' % build.REPO
+        bc2 = ws.compile('c02_genmain', gsrc2)
+        mod2 = ws.irx(bc2, prefixes=('imath_gen_main', '_Z14imath_gen_mainv'), no_unroll=True, opaque=('St',))
+        fm = [f_ for f_ in mod2['functions'] if 'imath_gen_main' in f_['name']]
+        if not fm:
+            rep.fail_incomplete('anchor vanished: main() of toFloat.cpp')
+        else:
+            fm = fm[0]
+            ids = {}; blk = {}
+            for b_ in fm['blocks']:
+                for i_ in b_['insts']: ids[i_.get('id')] = i_; blk[i_.get('id')] = b_['id']
+            def is_inc(vid, pid):
+                x_ = ids.get(vid, {}); io = x_.get('ops', [])
+                return x_.get('op') == 'add' and any(o_.get('k') == 'v' and o_.get('id') == pid for o_ in io) and any(o_.get('k') == 'ci' and int(o_['v']) == 1 for o_ in io)
+            counters = []
+            for i_ in ids.values():
+                if i_.get('op') == 'phi' and i_.get('fn') == 'imath_gen_main':
+                    ops_ = i_['ops']
+                    init = [o_ for o_, _ in ops_ if o_.get('k') == 'ci']; nxt = [o_ for o_, _ in ops_ if o_.get('k') == 'v']
+                    if len(init) == 1 and len(nxt) == 1 and int(init[0]['v']) == 0 and is_inc(nxt[0]['id'], i_['id']): counters.append(i_)
+            bad = None
+            if len(counters) != 1: bad = 'expected one counter running 0, 1, 2, ... in main(), found %d' % len(counters)
+            else:
+                cnt = counters[0]; w_ = int(cnt['bits'])
+                bounds = [i_ for i_ in ids.values() if i_.get('op') == 'icmp' and blk[i_['id']] == blk[cnt['id']] and any(o_.get('k') == 'v' and o_.get('id') == cnt['id'] for o_ in i_['ops'])]
+                if len(bounds) != 1: bad = 'the loop over the patterns has no single bound test on its counter'
+                else:
+                    bd = bounds[0]; k_ = [o_ for o_ in bd['ops'] if o_.get('k') == 'ci']
+                    lim = int(k_[0]['v']) if k_ else None
+                    n_iter = lim if bd.get('pred') in ('ult', 'slt') else (lim + 1 if bd.get('pred') in ('ule', 'sle') else None)
+                    if n_iter != 65536 or w_ < 17:
+                        bad = 'the generator prints %s entries (counter of %d bits, test %s %s); the table has 65536, one per half pattern' % (n_iter if n_iter is not None and w_ >= 17 else ('at most %d' % min(n_iter or 1 << w_, (1 << w_) - 1)), w_, bd.get('pred'), lim)
+                    else:
+                        calls = [i_ for i_ in ids.values() if i_.get('op') == 'call' and 'halfToFloat' in str(i_.get('callee', ''))]
+                        inl = [i_ for i_ in ids.values() if i_.get('fn') == 'halfToFloat']
+                        if not calls and not inl: bad = 'halfToFloat is not evaluated inside the loop'
+            rep.ob('toFloat.cpp main: one entry per pattern', 'R02.gen', VIOLATED if bad else HOLDS, bad or 'counter 0, 1, ... tested `< 65536` in a type wider than 16 bits: 65536 entries, halfToFloat(i) for each', 'src/Imath/toFloat.cpp (main)')
+    except (build.BuildError, KeyError, ValueError) as e:
+        rep.ob('toFloat.cpp main: one entry per pattern', 'R02.gen', UNDECIDED, str(e)[:300], 'src/Imath/toFloat.cpp')
     rep.undecided_clauses += ['subnormal cell (E = 0, M != 0) of the bit-shift path (count-leading-zeros renormalisation) and of the generator (while loop)',
                               'F16C instruction semantics (outside the source); NaN payload on F16C', 'the generator\'s text formatting of the table']
     # The F16C back-end rounds as IEEE (round-to-nearest-even, R02.f16c); the software back-ends agree with it iff
